@@ -2,6 +2,7 @@
 package emit
 
 import (
+	"math/big"
 	"fmt"
 	"strings"
 )
@@ -57,6 +58,15 @@ func lit(s string) string {
 	}
 	b.WriteByte('"')
 	return b.String()
+}
+
+// ZFloat prints a whole float64 of any magnitude as a Coq Z literal (exact, through math/big).
+func ZFloat(f float64) string {
+	bi, _ := big.NewFloat(f).Int(nil)
+	if bi.Sign() < 0 {
+		return "(" + bi.String() + ")"
+	}
+	return bi.String()
 }
 
 func Z(n int64) string {
